@@ -85,10 +85,25 @@ fn foreign(kind: usize, target: &str) -> Vec<Op> {
         // the child of the rolling CA rolls as well / asks for certificates
         12 => vec![Op::RollInit { ca: "g".into() }, Op::Pump { n: 3 }],
         13 => vec![Op::RenewAll, Op::ForceRenewRoas],
-        _ => vec![Op::Pump { n: 1 }],
+        14 => vec![Op::Pump { n: 1 }],
+        // entitlement change at the parent that REACHES the rolling CA in
+        // this very stage: shrink / grow followed by a full synchronisation
+        15 => {
+            let mut v = foreign(4, target);
+            v.extend([Op::SyncAll, Op::Quiesce]);
+            v
+        }
+        _ => {
+            let mut v = foreign(5, target);
+            v.extend([Op::SyncAll, Op::Quiesce]);
+            v
+        }
     }
 }
-const N_KINDS: usize = 15;
+const N_KINDS: usize = 17;
+/// Kinds run first in the quick tier (all gaps, both targets): the ones that
+/// make certificates travel while the roll is in an intermediate stage.
+const CORE_KINDS: &[usize] = &[16, 15, 8, 9];
 
 /// Roll steps with gaps 0..=4; `ins` = (gap, ops) insertions.
 fn roll_script(target: &str, ins: &[(usize, Vec<Op>)]) -> Vec<Op> {
@@ -377,9 +392,19 @@ fn main() {
     r.note("single_insertion_cases", json!(single));
     // rotate by seed so that different seeds start elsewhere; every shard
     // takes every nshards-th case until its budget is used
-    let rot = (args.seed as usize * 7) % single;
-    let mut order: Vec<usize> = (0..cases.len()).collect();
-    order[..single].rotate_left(rot);
+    let is_core = |label: &str| CORE_KINDS.iter().any(|k| {
+        label.contains(&format!("|k{k}@"))
+    }) || label.ends_with("|plain");
+    let core: Vec<usize> = (0..single)
+        .filter(|i| is_core(&cases[*i].2)).collect();
+    let mut rest: Vec<usize> = (0..single)
+        .filter(|i| !is_core(&cases[*i].2)).collect();
+    let rot = (args.seed as usize * 7) % rest.len().max(1);
+    rest.rotate_left(rot);
+    let mut order: Vec<usize> = core;
+    order.extend(rest);
+    order.extend(single..cases.len());
+    r.note("core_cases", json!(order.len().min(42)));
     let mut done = 0u64;
     for (i, ci) in order.iter().enumerate() {
         if (i as u64) % args.nshards != args.shard { continue }
